@@ -17,11 +17,11 @@ func strTerm(s StrV) *Term {
 
 func strFromTerm(t *Term) StrV {
 	if t.Op == "tq_mkstr" {
-		return StrV{t.Args[0], t.Args[1], t.Args[2]}
+		return StrV{Arr: t.Args[0], Off: t.Args[1], Len: t.Args[2]}
 	}
 	ln := App("tq_slen", SInt, t)
 	ln.Hi = maxLen
-	return StrV{App("tq_sarr", SArrB, t), App("tq_soff", SInt, t), ln}
+	return StrV{Arr: App("tq_sarr", SArrB, t), Off: App("tq_soff", SInt, t), Len: ln}
 }
 
 // constStr builds a string literal.
@@ -39,7 +39,8 @@ func constStr(s string) StrV {
 		}
 		arr = Var(fmt.Sprintf("tq_lit_%d_%x", len(s), h), SArrB)
 	}
-	return StrV{Arr: arr, Off: Num(0), Len: Num(int64(len(s)))}
+	lit := s
+	return StrV{Arr: arr, Off: Num(0), Len: Num(int64(len(s))), Lit: &lit}
 }
 
 // elemToTerm / elemFromTerm convert between executor values and SMT array elements.
@@ -298,7 +299,7 @@ func (e *Engine) mergeValues(c *Term, a, b Value) (Value, bool) {
 		if !ok {
 			return nil, false
 		}
-		return StrV{Ite(c, x.Arr, y.Arr), Ite(c, x.Off, y.Off), Ite(c, x.Len, y.Len)}, true
+		return StrV{Arr: Ite(c, x.Arr, y.Arr), Off: Ite(c, x.Off, y.Off), Len: Ite(c, x.Len, y.Len), Taint: x.Taint || y.Taint}, true
 	case SliceV:
 		y, ok := b.(SliceV)
 		if !ok {
